@@ -40,7 +40,7 @@ class Monitor(object):
         return a <= b
 
     def _min_pending(self, Q):
-        return min(nd.next_event_date for nd in Q.active_nodes)
+        return min(nd.next_event_date for nd in Q.nodes[:-1])
 
     def on_init(self, Q):
         self.prev_t = Q.current_time
@@ -56,7 +56,7 @@ class Monitor(object):
         self.prev_t = now
         self.expected_next = self._min_pending(Q)
         # nothing scheduled in the past
-        for nd in Q.active_nodes:
+        for nd in Q.nodes[:-1]:
             if nd.next_event_date < now and not self.eq(nd.next_event_date, now):
                 self.violate("scheduled_in_past", {"what": "node.next_event_date", "node": getattr(nd, "id_number", 0),
                                                          "type": getattr(nd, "next_event_type", "arrival"),
